@@ -59,6 +59,9 @@ EXPECTED_PROBES = ["lookup_cache_hit", "lookup_cache_miss",
                    "gap_wall_time", "fold_wall_time", "fresh_copy_agrees",
                    "malformed_rejected", "acquire_blocked"]
 
+REAL = ['dateutil.tz tzical/_tzicalvtz, dateutil.rrule (rrulestr, cached sets), tz._common from /repo/src', 'real OS threads in the threads class']
+STUB = ["the zone's lookup-cache mutex and the recurrence-cache mutexes (SimLock)", 'thread scheduling (LINE events of tz/tz.py, tz/_common.py, rrule.py)', 'file system for tzical(path) (SimFS)', 'VTIMEZONE texts generated from POSIX rule pairs']
+
 CLASSES = {
     "hist":    dict(quick=1500, thorough=40000, timeout=120),
     "threads": dict(quick=1000, thorough=25000, timeout=120),
